@@ -10,6 +10,7 @@ import PsModel.FloatOracle
 import PsModel.SieveTable
 import PsModel.Erat
 import PsModel.Parallel
+import PsModel.Store
 
 open Ps
 
@@ -179,6 +180,79 @@ def countLine (op : String) : String :=
     | _, _, _, _, _ => "bad-op"
   | _ => "bad-op"
 
+
+/-- FNV-1a (64 bit) of the UTF-8 bytes of a string -/
+def fnv1a (s : String) : UInt64 :=
+  s.toUTF8.foldl (fun h c => (h ^^^ c.toUInt64) * 1099511628211) 1469598103934665603
+
+@[noinline] def printWithTable (t : ByteArray) (start stop flags : Nat) : List String :=
+  primeSievePrint (tableIsPrime start stop t) start stop flags
+
+def us (s : String) : String := s.replace " " "_"
+
+/-- `print <start> <stop> <kind> <kib> <api>` -/
+def printLine (op : String) : String :=
+  match (op.splitOn " ").filter (· ≠ "") with
+  | ["print", a, b, k, _kib, _api] =>
+    match a.toNat?, b.toNat?, k.toNat? with
+    | some start, some stop, some kind =>
+      let flags := 64 * 2 ^ kind
+      let lines :=
+        if tableOk start stop then printWithTable (segmentTable start stop) start stop flags
+        else primeSievePrint isPrimeMR start stop flags
+      let text := String.join (lines.map (· ++ "\n"))
+      let first := us (lines.headD "-")
+      let last := us (lines.getLastD "-")
+      s!"lines={lines.length} fnv={fnv1a text} first={first} last={last}"
+    | _, _, _ => "bad-op"
+  | _ => "bad-op"
+
+
+def typeMax : String → Option Nat
+  | "i8" => some 127 | "u8" => some 255
+  | "i16" => some 32767 | "u16" => some 65535 | "short" => some 32767 | "ushort" => some 65535
+  | "i32" => some 2147483647 | "u32" => some 4294967295 | "int" => some 2147483647 | "uint" => some 4294967295
+  | "i64" => some 9223372036854775807 | "long" => some 9223372036854775807 | "llong" => some 9223372036854775807
+  | "u64" => some umax | "ulong" => some umax | "ullong" => some umax
+  | _ => none
+
+def showStore : Option StoreRes → String
+  | none => "out-of-fuel"
+  | some (.throw _ _) => "throw"
+  | some (.ok app) =>
+    let text := ",".intercalate (app.map toString)
+    s!"ok n={app.length} fnv={fnv1a text} first={(app.head?.map toString).getD "-"} last={(app.getLast?.map toString).getD "-"}"
+
+/-- store_n_primes' stop hint: start + (uint64_t)(n * (log x + log log x)), x = max(6, n, start) -/
+def storeNHint (n start : Nat) : Nat :=
+  let x := fmax (fmax 6.0 (toF n)) (toF start)
+  let logn := x.log
+  let loglogn := logn.log
+  add64 start ((toF n * (logn + loglogn)).toUInt64.toNat)
+
+@[noinline] def storeWithTable (t : ByteArray) (lo hi : Nat) (fuel start stop vmax : Nat) : Option StoreRes :=
+  storePrimes { isPrime := tableIsPrime lo hi t, o := floatOracle } (fun _ => 1024) fuel start stop vmax
+
+/-- `gp <start> <stop> <type> <api> <prefill>` / `gn <n> <start> <type> <api> <prefill>` -/
+def storeLine (op : String) : String :=
+  match (op.splitOn " ").filter (· ≠ "") with
+  | ["gp", a, b, ty, _api, _pre] =>
+    match a.toNat?, b.toNat?, typeMax ty with
+    | some start, some stop, some vmax =>
+      let fuel := stop + 2 - start
+      -- the iterator's last chunk may look a little beyond stop (stop_hint + max prime gap)
+      let hi := min (stop + 2000) umax
+      if start ≤ stop ∧ stop ≤ vmax ∧ tableOk start hi then
+        showStore (storeWithTable (segmentTable start hi) start hi fuel start stop vmax)
+      else showStore (storePrimes driverEnv (fun _ => 1024) fuel start stop vmax)
+    | _, _, _ => "bad-op"
+  | ["gn", a, b, ty, _api, _pre] =>
+    match a.toNat?, b.toNat?, typeMax ty with
+    | some n, some start, some vmax =>
+      showStore (storeNPrimes driverEnv (fun _ => 1024) (n + 2) n start (storeNHint n start) vmax)
+    | _, _, _ => "bad-op"
+  | _ => "bad-op"
+
 partial def lineLoop (h : IO.FS.Stream) (f : String → String) : IO Unit := do
   let line ← h.getLine
   if line.isEmpty then return ()
@@ -196,6 +270,8 @@ def main (args : List String) : IO UInt32 := do
     | "iter" => iterLoop s (Iter.mk' 0 umax); return 0
     | "segment" => segLoop s; return 0
     | "count" => lineLoop s countLine; return 0
+    | "print" => lineLoop s printLine; return 0
+    | "store" => lineLoop s storeLine; return 0
     | "bench" =>
       let n := (← IO.FS.readFile file).trimAscii.toString.toNat?.getD 1000
       let t00 ← IO.monoMsNow
